@@ -310,10 +310,11 @@ def subset_diff(exp, act, path=""):
         for k, v in exp.items():
             if isinstance(k, str) and k.startswith("_"):
                 continue
+            kk = "<n>" if isinstance(k, int) else k
             if k not in act:
-                out.append(("%s/%s" % (path, k), "missing"))
+                out.append(("%s/%s" % (path, kk), "missing (key %r)" % (k,)))
             else:
-                out.extend(subset_diff(v, act[k], "%s/%s" % (path, k)))
+                out.extend(subset_diff(v, act[k], "%s/%s" % (path, kk)))
         return out
     if isinstance(exp, (list, tuple)):
         if not isinstance(act, (list, tuple)):
@@ -378,6 +379,13 @@ class Format:
     def length_sites(self, v, b):
         """[(offset, nbytes)] of embedded length / count fields in b"""
         return []
+
+    facade_table = "sbc"
+
+    def facade(self, v, alloclen):
+        """(facade method name, kwargs) that requests this response; None if
+        the facade offers no way"""
+        return None
 
 
 class StructFormat(Format):
@@ -1301,3 +1309,44 @@ REFERENCE_GAPS = [
     "mode pages other than 02h, 0Ah, 0Ah/01h, 1Dh (the library decodes no others)",
     "multi-page MODE SENSE responses (library returns the first page only; single-page requests generated)",
 ]
+
+
+# ---------------------------------------------------------------------------
+# how the facade asks for each format (method, kwargs); table = opcode set
+def _facade_map():
+    F = FORMATS
+    F["inquiry.standard"].facade = lambda v, n: ("inquiry", {"alloclen": n})
+    for k, f in F.items():
+        if k.startswith("inquiry.vpd"):
+            f.facade = (lambda page: (lambda v, n: ("inquiry", {"evpd": 1, "page_code": page, "alloclen": n})))(f.page)
+
+    def ms(method):
+        def g(v, n):
+            p = v["mode_pages"][0]
+            return (method, {"page_code": p["page_code"], "sub_page_code": p.get("sub_page_code", 0), "alloclen": n})
+        return g
+
+    F["modesense6"].facade = ms("modesense6")
+    F["modesense10"].facade = ms("modesense10")
+    F["readcapacity10"].facade = lambda v, n: ("readcapacity10", {"alloclen": n})
+    F["readcapacity16"].facade = lambda v, n: ("readcapacity16", {"alloclen": n})
+    F["getlbastatus"].facade = lambda v, n: ("getlbastatus", {"lba": 0, "alloclen": n})
+    F["reportluns"].facade = lambda v, n: ("reportluns", {"alloclen": n})
+    F["reporttargetportgroups"].facade = lambda v, n: ("reporttargetportgroups", {"data_format": v["format_type"], "alloclen": n})
+    F["reportpriority"].facade = lambda v, n: ("reportpriority", {"alloclen": n})
+    F["readelementstatus"].facade = lambda v, n: ("readelementstatus", {"start": 0, "num": 0xFFFF, "alloclen": n})
+    F["readelementstatus"].facade_table = "smc"
+    F["prin.readkeys"].facade = lambda v, n: ("persistentreservein", {"service_action": 0, "alloclen": n})
+    F["prin.readreservation"].facade = lambda v, n: ("persistentreservein", {"service_action": 1, "alloclen": n})
+    F["prin.reportcapabilities"].facade = lambda v, n: ("persistentreservein", {"service_action": 2, "alloclen": n})
+    F["prin.readfullstatus"].facade = lambda v, n: ("persistentreservein", {"service_action": 3, "alloclen": n})
+    for t in (0, 1, 2):
+        f = F["readdiscinformation.type%d" % t]
+        f.facade = (lambda tt: (lambda v, n: ("readdiscinformation", {"data_type": tt, "alloc_len": n})))(t)
+        f.facade_table = "mmc"
+    F["readcd"].facade = lambda v, n: ("readcd", {"lba": v["_lba"], "tl": v["_tl"], "est": v["_est"], "mcsb": v["_mcsb"],
+                                                  "c2ei": v["_c2ei"], "scsb": v["_scsb"]})
+    F["readcd"].facade_table = "mmc"
+
+
+_facade_map()
